@@ -168,3 +168,10 @@ Ltac tie_parse_cipher_suites := tie_lists.
 Ltac tie_parse_compressions_algs := tie_lists.
 Ltac tie_parse_named_groups := unfold parse_u16_all; tie_lists.
 Ltac tie_parse_tls_versions := unfold parse_u16_all; tie_lists.
+
+(* element n of a list all of whose elements satisfy P (used to pick one public parser out of Proofs/PublicSafe.v
+   by position: the proof term is the position, not a chain of disjunctions) *)
+Lemma forall_nth_error {A} (Q : A -> Prop) (l : list A) : Forall Q l -> forall n x, nth_error l n = Some x -> Q x.
+Proof.
+  intros H n x E. apply nth_error_In in E. revert x E. apply Forall_forall. exact H.
+Qed.
